@@ -7,6 +7,7 @@
   CAPREG    every (kind, lookup key) the serializer can dispatch through a union is registered in the lookup
   BORROW    slice reads reach visit_borrowed, and the string/bytes visitors reach visit_borrowed_str/bytes
   LEPAIR    to_le_bytes (ser) <-> from_le_bytes (de) for float and double
+  shared    DECSCALE + FREEZEMAP (c02), SLICE / VARINT / FIXEDBUF reading primitives (c11): necessary for round trips
 It does NOT decide value equality of round trips.
 """
 from ..lib import *
